@@ -191,6 +191,8 @@ pub fn seq_campaigns(property: &str) -> Vec<SeqCampaign> {
                 rule: "as seq-main, but puts of keys that are past their time-to-live and not yet swept are generated too (their refusal, known finding F6 of C07, is noted and does not end the case): a re-put that is accepted must survive the sweep of the old incarnation; non-trivial = a sweep removed a key and a previously written key was put again" },
         ],
         "C11" => vec![main("seq-bursts", 3000, 50_000, nt_c11, RULE_C11)],
+        "C13" => vec![SeqCampaign { name: "seq-after-shutdown", params: profile("C05"), policy: Policy::default(), cases_quick: 1500, cases_thorough: 20_000, nt: |s| s.accepted_puts >= 1 && s.writes >= 3,
+            rule: "generated histories; at the end shutdown() is called twice, then all six write entry points must return Err and all seven read variants must return absent / empty for every key the history wrote (and one it never wrote); non-trivial = the history had an accepted put and >= 3 writes before the shutdown" }],
         "C16" => vec![main("seq-main", 3000, 60_000, nt_c16, RULE_C16)],
         "C17" => vec![
             main("seq-main", 4000, 80_000, nt_c17, RULE_C17),
